@@ -342,6 +342,19 @@ func (s *Sym) heapWellFormed(env *Env, v TV) {
 	}
 	var t string
 	switch {
+	case v.S == "Bytes" || v.S == "Str":
+		// representation invariants of string-like values stored in the heap
+		key := "wfs:" + v.T
+		if !s.declared[key] {
+			s.declared[key] = true
+			c := v.T
+			if v.S == "Bytes" {
+				c = "(cont " + v.T + ")"
+				s.emit(fmt.Sprintf("(assert (=> (bnil %s) (= %s str_empty)))", v.T, c))
+			}
+			s.emit(fmt.Sprintf("(assert (and (>= (slen %s) 0) (=> (= (slen %s) 0) (= %s str_empty))))", c, c, c))
+		}
+		return
 	case v.S == "Int" && isRefLike(v.GT):
 		t = v.T
 	case v.S == "Int" && v.GT != nil && isStructPtrOrStruct(v.GT):
@@ -428,6 +441,13 @@ func (s *Sym) evBin(env *Env, x EBin) TV {
 	switch x.Op {
 	case "&&", "||", "==>", "<==>":
 		a := s.ev(env, x.X)
+		// short circuit: lets contracts guard type-specific clauses with typeis()
+		if a.T == "false" && x.Op == "==>" {
+			return TV{T: "true", S: "Bool"}
+		}
+		if a.T == "false" && x.Op == "&&" {
+			return TV{T: "false", S: "Bool"}
+		}
 		b := s.ev(env, x.Y)
 		if a.S != "Bool" || b.S != "Bool" {
 			bad("operands of %s must be boolean", x.Op)
@@ -590,7 +610,8 @@ func (s *Sym) evCall(env *Env, x ECall) TV {
 		}
 		t := s.P.namedType(tn)
 		if t == nil {
-			bad("unknown type %s", tn)
+			// a type that is not part of the loaded program cannot be a dynamic type here
+			return TV{T: "false", S: "Bool"}
 		}
 		if x.Fn == "typeisval" {
 			return TV{T: fmt.Sprintf("(= (ityp %s) %s)", v.T, s.typeID(t)), S: "Bool"}
